@@ -458,6 +458,28 @@ func (m *lfsModule) forwardToBackend(ctx context.Context, conn net.Conn, payload
 	return frame.Payload, nil
 }
 
+// lfsCheckProduceResponse returns an error unless the broker's produce response
+// acknowledges at least one partition and reports no error code for any partition.
+func lfsCheckProduceResponse(payload []byte, version int16) error {
+	resp, err := parseProduceResponse(payload, version)
+	if err != nil {
+		return err
+	}
+	acked := 0
+	for _, topic := range resp.Topics {
+		for _, partition := range topic.Partitions {
+			if partition.ErrorCode != 0 {
+				return fmt.Errorf("broker rejected produce for %s[%d]: error code %d", topic.Topic, partition.Partition, partition.ErrorCode)
+			}
+			acked++
+		}
+	}
+	if acked == 0 {
+		return fmt.Errorf("produce response acknowledged no partition")
+	}
+	return nil
+}
+
 func (m *lfsModule) trackOrphans(orphans []orphanInfo) {
 	if len(orphans) == 0 {
 		return
